@@ -14,6 +14,8 @@ PLANS = {
     "C03": {"level": "exploration", "exhaustive": False, "legs": [leg("main")]},
     "C01": {"level": "exploration", "exhaustive": False, "legs": [leg("main")]},
     "C02": {"level": "exploration", "exhaustive": False, "legs": [leg("main"), leg("race", flavour="race", tiers=("thorough",), env={"VERIF_SMALL": "1"})]},
+    "C04": {"level": "exploration", "exhaustive": False, "legs": [leg("main")]},
+    "C05": {"level": "exploration", "exhaustive": False, "legs": [leg("main")]},
     "C06": {"level": "exploration", "exhaustive": False, "legs": [leg("main")]},
     "C07": {"level": "exploration", "exhaustive": False, "legs": [leg("main")]},
     "C11": {"level": "exploration", "exhaustive": False, "legs": [leg("main"), leg("race", flavour="race", tiers=("thorough",), env={"VERIF_SMALL": "1"})]},
@@ -24,10 +26,11 @@ PLANS = {
     "C15": {"level": "exploration", "exhaustive": False, "legs": [leg("main")]},
     "C16": {"level": "exploration", "exhaustive": False, "legs": [leg("main")]},
     "C19": {"level": "exploration", "exhaustive": False, "legs": [leg("main")]},
+    "C17": {"level": "exploration", "exhaustive": False, "legs": [leg("main")]},
     "C18": {"level": "exploration", "exhaustive": False, "replay_flavour": "race",
             "legs": [leg("main", flavour="race", race_is_violation=True)]},
     "C20": {"level": "exploration", "exhaustive": True, "legs": [leg("main")]},
 }
 
 # checks that exist but are not claimed yet (work in progress: not silent on the current tree)
-WIP = {"C06"}
+WIP = set()
